@@ -3,5 +3,6 @@ pub mod engine;
 pub mod oracle {
     pub mod refcodec;
     pub mod refcrc;
+    pub mod refrx;
 }
 pub mod props;
